@@ -48,6 +48,7 @@ func main() {
 	replay := flag.String("replay", "", "replay a case token (file path) against implementation and model")
 	scale := flag.Float64("scale", 1.0, "case count multiplier")
 	only := flag.String("suite", "", "run only this suite")
+	budget := flag.Float64("budget", 0, "wall-clock budget in seconds for generated cases (0: none); shared by the suites in proportion to their case counts")
 	flag.Parse()
 	start := time.Now()
 
@@ -67,6 +68,7 @@ func main() {
 	defer md.Close()
 	if *out != "" {
 		crashFile = *out + ".running"
+		caseLimit = 10 * time.Minute
 		defer os.Remove(crashFile)
 	}
 	o := &Output{Property: *prop, Tier: *tier, Seed: *seed, Suites: map[string]*Stats{}, Known: map[string]int{}, Rules: map[string]string{}}
@@ -76,10 +78,19 @@ func main() {
 			knownSigs[k] = 0
 		}
 	}
+	totalCases := 0
+	for _, su := range suites {
+		if *tier == "thorough" {
+			totalCases += su.Thorough
+		} else {
+			totalCases += su.Quick
+		}
+	}
 	for si, su := range suites {
 		if *only != "" && su.Name != *only {
 			continue
 		}
+		suiteStart := time.Now()
 		g := &Gen{R: rand.New(rand.NewSource(*seed*1000003 + int64(si)))}
 		m := su.NewMachine()
 		st := NewStats()
@@ -93,7 +104,15 @@ func main() {
 			cs.Machine = m.ID()
 			ck.Check(cs, su.Nontrivial)
 		}
+		share := 0.0
+		if *budget > 0 && totalCases > 0 {
+			share = *budget * float64(n) / (float64(totalCases) * *scale)
+		}
 		for k := 0; k < n; k++ {
+			if share > 0 && k >= su.Quick && time.Since(suiteStart).Seconds() > share {
+				st.Truncated = fmt.Sprintf("%d of %d cases generated within the time budget of %.0f s", k, n, share)
+				break
+			}
 			cs := su.Gen(g, *tier)
 			cs.Machine = m.ID()
 			ck.Check(cs, su.Nontrivial)
